@@ -121,6 +121,16 @@ Theorem C04_extend_merge_preserves_partial :
 Proof. exact sql_merge_preserves. Qed.
 Print Assumptions C04_extend_merge_preserves_partial.
 
+(* the dependencies extend_to_near_sql declares for an assigned column (Model/SqlMerge.v declared_deps, compared with the real
+   declared_term_dependencies of every extend node on every run) contain the columns the expression mentions and the window's
+   partition and order columns, ascending or reversed: what the guard `deps_describe` above needs of a windowed term *)
+Theorem C04_declared_dependencies_cover_the_window :
+  forall (demand : list string) (subops : list (string * list string)) (partition order : list string) k cols,
+  dict_get subops k = Some cols ->
+  forall c, In c (cols ++ partition ++ order) -> In c (deps_of (declared_deps demand subops partition order) k).
+Proof. exact declared_deps_cover. Qed.
+Print Assumptions C04_declared_dependencies_cover_the_window.
+
 (* which cache key the merged step carries: the inner step's as the code stands (the cause of the first refutation),
    the outer extend's once repaired *)
 Theorem C04_merged_step_key :
